@@ -435,7 +435,7 @@ def check_c06(tier):
         for s in schedules_for(rng, prog, lim):
             cases.append((prog, s))
     # every pair of methods on the same key from every kind of starting state
-    for prog in systematic_programs(rng, KINDS, 0.25 if tier == "quick" else 1.0):
+    for prog in systematic_programs(rng, KINDS, 0.5 if tier == "quick" else 1.0):
         for s in schedules_for(rng, prog, 20, grants=2):
             cases.append((prog, s))
     # schedules enumerated by TLC for the model's own programs
